@@ -66,6 +66,26 @@ struct Pool
 };
 inline Pool& pool () { static Pool p; return p; }
 
+// float-typed results of opaque members (C11: Euler<T>::angleMod returns `float` for every T): the
+// member's T = Sym specialisation returns a NaN whose payload indexes this table (floatToken), and
+// Sym (float) maps such a NaN back to the node.  No arithmetic is performed on the token in between.
+inline std::vector<const Node*>& floatTokens () { static std::vector<const Node*> v; return v; }
+inline float floatToken (const Node* n)
+{
+    auto& t = floatTokens ();
+    t.push_back (n);
+    uint32_t bits = 0x7fc00000u | (uint32_t) (t.size () & 0x3fffffu);
+    float f; memcpy (&f, &bits, 4);
+    return f;
+}
+inline const Node* nodeOfFloat (float v)
+{
+    uint32_t bits; memcpy (&bits, &v, 4);
+    uint32_t k = bits & 0x3fffffu;
+    if ((bits & 0x7fc00000u) == 0x7fc00000u && k >= 1 && k <= floatTokens ().size ()) return floatTokens ()[k - 1];
+    return pool ().mk (LIT, {}, "", (double) v);
+}
+
 //-----------------------------------------------------------------------------
 // conditions and the explorer
 
@@ -152,9 +172,11 @@ struct Sym
     Sym (unsigned v) : n (pool ().mk (LIT, {}, "", (double) v)) {}
     Sym (long v) : n (pool ().mk (LIT, {}, "", (double) v)) {}
     Sym (unsigned long v) : n (pool ().mk (LIT, {}, "", (double) v)) {}
-    Sym (float v) : n (pool ().mk (LIT, {}, "", (double) v)) {}
+    Sym (float v) : n (nodeOfFloat (v)) {}
     Sym (double v) : n (pool ().mk (LIT, {}, "", v)) {}
     static Sym var (const std::string& name) { return Sym (pool ().mk (VAR, {}, name)); }
+    // contextual conversion `if (T l = length ())` (ImathQuat.h normalize): l != 0, a recorded decision
+    explicit operator bool () const;
 };
 
 // a second, distinct scalar type standing for "another element type S": forces the
@@ -213,6 +235,7 @@ inline bool operator<= (Sym a, Sym b) { return explorer ().decide (C_LE, a.n, b.
 inline bool operator>= (Sym a, Sym b) { return explorer ().decide (C_LE, b.n, a.n); }
 inline bool operator== (Sym a, Sym b) { return explorer ().decide (C_EQ, a.n, b.n); }
 inline bool operator!= (Sym a, Sym b) { return !explorer ().decide (C_EQ, a.n, b.n); }
+inline Sym::operator bool () const { return !explorer ().decide (C_EQ, n, Sym (0).n); }
 #define SYM_MIXED_CMP(T)                                                                  \
     inline bool operator< (Sym a, T b) { return a < Sym (b); }                             \
     inline bool operator< (T a, Sym b) { return Sym (a) < b; }                             \
